@@ -94,8 +94,55 @@ func resolveIdent(c *ctxT, fd *ast.FuncDecl, name string) string {
 	return res
 }
 
+// resolveLhs returns the source of the right-hand side of the first `..., name, ... := expr` (any arity) inside fd.
+func resolveLhs(c *ctxT, fd *ast.FuncDecl, name string) string {
+	res := ""
+	ast.Inspect(fd.Body, func(n ast.Node) bool {
+		as, ok := n.(*ast.AssignStmt)
+		if !ok || as.Tok != token.DEFINE || len(as.Rhs) != 1 || res != "" {
+			return true
+		}
+		for _, l := range as.Lhs {
+			if id, ok := l.(*ast.Ident); ok && id.Name == name {
+				res = c.src(as.Rhs[0])
+			}
+		}
+		return true
+	})
+	return res
+}
+
 func heightSrc(src string) string {
 	s := strings.ReplaceAll(src, " ", "")
+	return heightSrcOf(s)
+}
+
+// heightSrcVia classifies the source of a height expression; an expression that is a call of a keeper helper
+// `k.F(ctx)` is classified by what the body of F reads (one level).
+func heightSrcVia(c *ctxT, src string) string {
+	s := strings.ReplaceAll(src, " ", "")
+	if r := heightSrcOf(s); r != "unknown" {
+		return r
+	}
+	if m := regexp.MustCompile(`^k\.([A-Za-z0-9_]+)\(ctx\)(\.[A-Za-z0-9_]+)?$`).FindStringSubmatch(s); m != nil {
+		if fd := c.findFunc(c05Keeper, "Keeper", m[1]); fd != nil && fd.Body != nil {
+			body := strings.ReplaceAll(c.src(fd.Body), " ", "")
+			switch {
+			case strings.Contains(body, "AverageBlockTime") || strings.Contains(body, "ctx.BlockTime()"):
+				return "projected"
+			case strings.Contains(body, "ctx.BlockHeight()") || strings.Contains(body, "ctx.BlockHeader()"):
+				return "fxHeight"
+			case strings.Contains(body, "GetLastObservedBlockHeight(ctx).BlockHeight") && !strings.Contains(body, "ExternalBlockHeight"):
+				return "observedFx"
+			case strings.Contains(body, "GetLastObservedBlockHeight(ctx).ExternalBlockHeight") && m[2] == "":
+				return "observedExternal"
+			}
+		}
+	}
+	return "unknown"
+}
+
+func heightSrcOf(s string) string {
 	switch {
 	case s == "k.GetLastObservedBlockHeight(ctx).ExternalBlockHeight":
 		return "observedExternal"
@@ -324,7 +371,7 @@ func extractC05(c *ctxT) {
 							other = r
 						}
 					}
-					src = heightSrc(other)
+					src = heightSrcVia(c, other)
 					cancels = callsNamed(c, ifs.Body, "CancelOutgoingTxBatch")
 				}
 				if v, ok := lastReturnBool(fl.Body); ok && !v {
@@ -350,7 +397,7 @@ func extractC05(c *ctxT) {
 							other = r
 						}
 					}
-					src = heightSrc(other)
+					src = heightSrcVia(c, other)
 					if v, ok := lastReturnBool(ifs.Body); ok && v && len(ifs.Body.List) == 1 {
 						stops = true
 					}
@@ -404,6 +451,81 @@ func extractC05(c *ctxT) {
 			})
 		}
 		def("tryAttestationOrder", "List String", leanList(order), "order of the state-changing calls inside TryAttestation")
+		// the clean-ups EndBlocker runs (directly, or through a keeper helper it calls: one level), in call order
+		var eb []string
+		if fd := c.findFunc(c05Keeper, "Keeper", "EndBlocker"); fd != nil && fd.Body != nil {
+			var visit func(body ast.Node, depth int)
+			visit = func(body ast.Node, depth int) {
+				ast.Inspect(body, func(n ast.Node) bool {
+					ce, ok := n.(*ast.CallExpr)
+					if !ok {
+						return true
+					}
+					se, ok := ce.Fun.(*ast.SelectorExpr)
+					if !ok {
+						return true
+					}
+					switch se.Sel.Name {
+					case "cleanupTimedOutBatches", "cleanupTimeOutBridgeCall":
+						eb = append(eb, leanStr(se.Sel.Name))
+					default:
+						if depth == 0 && c.src(se.X) == "k" {
+							if h := c.findFunc(c05Keeper, "Keeper", se.Sel.Name); h != nil && h.Body != nil {
+								visit(h.Body, 1)
+							}
+						}
+					}
+					return true
+				})
+			}
+			visit(fd.Body, 0)
+		}
+		def("endBlockerCleanups", "List String", leanList(eb), "the clean-up functions EndBlocker runs (every block, no observation needed), in call order")
+	}
+	// ---- AddUnbatchedTxBridgeFee: which account pays the added fee -----------------------------------------
+	{
+		payer := "unknown"
+		var payers []string
+		if fd := c.findFunc(c05Keeper, "Keeper", "AddUnbatchedTxBridgeFee"); fd != nil && fd.Body != nil {
+			ast.Inspect(fd.Body, func(n ast.Node) bool {
+				ce, ok := n.(*ast.CallExpr)
+				if !ok {
+					return true
+				}
+				se, ok := ce.Fun.(*ast.SelectorExpr)
+				if !ok || len(ce.Args) < 2 {
+					return true
+				}
+				switch se.Sel.Name {
+				case "SendCoinsFromAccountToModule", "SendCoins", "TransferBridgeCoinToExternal", "BaseCoinToBridgeToken", "BurnCoinsFromAccount":
+				default:
+					return true
+				}
+				a := strings.ReplaceAll(c.src(ce.Args[1]), " ", "")
+				if r := resolveIdent(c, fd, a); r != "" {
+					a = strings.ReplaceAll(r, " ", "")
+				}
+				cls := "unknown"
+				switch {
+				case a == "sender":
+					cls = "msgSender"
+				case strings.Contains(a, "tx.Sender"):
+					cls = "txSender"
+				}
+				payers = append(payers, cls)
+				return true
+			})
+		}
+		if len(payers) > 0 {
+			payer = payers[0]
+			for _, p := range payers {
+				if p != payer {
+					payer = "unknown"
+				}
+			}
+		}
+		sb.WriteString("/-- the account debited by a fee increase -/\ninductive Payer where | msgSender | txSender | unknown\n  deriving DecidableEq, Repr\n\n")
+		def("incFeePayer", "Payer", "."+payer, "AddUnbatchedTxBridgeFee takes the added fee from: the `sender` argument (the message signer) / the creator stored in the pool entry")
 	}
 	// ---- CalExternalTimeoutHeight / zero-timeout rejection ------------------------------------------------
 	{
@@ -590,6 +712,175 @@ func extractC05(c *ctxT) {
 		}
 		def("executedCancelsCmp", "Cmp", "."+cmp, "OutgoingTxBatchExecuted cancels batches with `iterBatch.BatchNonce <op> batch.BatchNonce` …")
 		def("executedCancelsSameToken", "Bool", leanBool(same), "… of the same token contract only")
+	}
+	// ---- fee increase: token guard --------------------------------------------------------------------------------
+	{
+		guard := false
+		if fd := c.findFunc(c05Keeper, "Keeper", "AddUnbatchedTxBridgeFee"); fd != nil && fd.Body != nil {
+			fromDenom := strings.Contains(strings.ReplaceAll(resolveLhs(c, fd, "tokenContract"), " ", ""), "GetContractByBridgeDenom(ctx,addBridgeFee.Denom)")
+			for _, st := range fd.Body.List {
+				ifs, ok := st.(*ast.IfStmt)
+				if !ok {
+					continue
+				}
+				cond := strings.ReplaceAll(c.src(ifs.Cond), " ", "")
+				if (cond == "tx.Fee.Contract!=tokenContract" || cond == "tokenContract!=tx.Fee.Contract") && len(ifs.Body.List) == 1 {
+					if r, ok := ifs.Body.List[0].(*ast.ReturnStmt); ok && len(r.Results) == 1 {
+						if _, isCall := r.Results[0].(*ast.CallExpr); isCall && fromDenom {
+							guard = true
+						}
+					}
+				}
+			}
+		}
+		def("incFeeTokenCheck", "Bool", leanBool(guard), "AddUnbatchedTxBridgeFee rejects an added fee whose bridge token is not the transfer's fee token")
+	}
+	// ---- bridge-call refund: recipient; result handler: which paths refund / delete ---------------------------------
+	{
+		to := "unknown"
+		if fd := c.findFunc(c05Keeper, "Keeper", "HandleOutgoingBridgeCallRefund"); fd != nil && fd.Body != nil {
+			ast.Inspect(fd.Body, func(n ast.Node) bool {
+				ce, ok := n.(*ast.CallExpr)
+				if !ok || to != "unknown" {
+					return true
+				}
+				se, ok := ce.Fun.(*ast.SelectorExpr)
+				if !ok || se.Sel.Name != "bridgeCallTransferCoins" || len(ce.Args) < 3 {
+					return true
+				}
+				a := strings.ReplaceAll(c.src(ce.Args[1]), " ", "")
+				if r := resolveIdent(c, fd, a); r != "" {
+					a = strings.ReplaceAll(r, " ", "")
+				}
+				switch {
+				case strings.Contains(a, "data.GetRefund()") || strings.Contains(a, "data.Refund"):
+					to = "refund"
+				case strings.Contains(a, "data.GetSender()") || strings.Contains(a, "data.Sender"):
+					to = "sender"
+				}
+				return true
+			})
+		}
+		sb.WriteString("/-- who a refunded outgoing bridge call pays -/\ninductive CallRefundTo where | refund | sender | unknown\n  deriving DecidableEq, Repr\n\n")
+		def("callRefundReceiver", "CallRefundTo", "."+to, "HandleOutgoingBridgeCallRefund pays the record's refund address / its sender")
+		// BridgeCallResultHandler: per outcome, is the record refunded / deleted
+		refundF, refundS, delF, delS := false, false, false, false
+		if fd := c.findFunc(c05Keeper, "Keeper", "BridgeCallResultHandler"); fd != nil && fd.Body != nil {
+			mark := func(n ast.Node, onF, onS bool) {
+				if callsNamed(c, n, "HandleOutgoingBridgeCallRefund") {
+					refundF, refundS = refundF || onF, refundS || onS
+				}
+				if callsNamed(c, n, "DeleteOutgoingBridgeCallRecord") {
+					delF, delS = delF || onF, delS || onS
+				}
+			}
+			for _, st := range fd.Body.List {
+				ifs, ok := st.(*ast.IfStmt)
+				if !ok {
+					mark(st, true, true)
+					continue
+				}
+				cond := strings.ReplaceAll(c.src(ifs.Cond), " ", "")
+				switch cond {
+				case "!claim.Success":
+					mark(ifs.Body, true, false)
+					if ifs.Else != nil {
+						mark(ifs.Else, false, true)
+					}
+				case "claim.Success":
+					mark(ifs.Body, false, true)
+					if ifs.Else != nil {
+						mark(ifs.Else, true, false)
+					}
+				default:
+					if !strings.HasPrefix(cond, "!found") { // the not-found panic guard
+						mark(ifs, true, true)
+					}
+				}
+			}
+		}
+		def("resultRefundsOnFailure", "Bool", leanBool(refundF), "BridgeCallResultHandler refunds the record when the result says failure")
+		def("resultRefundsOnSuccess", "Bool", leanBool(refundS), "… when it says success")
+		def("resultDeletesOnFailure", "Bool", leanBool(delF), "BridgeCallResultHandler deletes the record when the result says failure")
+		def("resultDeletesOnSuccess", "Bool", leanBool(delS), "… when it says success")
+	}
+	// ---- what the message servers hand over, and which field of the stored record gets which argument ----------------
+	{
+		args := func(fn, callee string) []string {
+			var out []string
+			if fd := c.findFunc(c05Keeper, "MsgServer", fn); fd != nil && fd.Body != nil {
+				ast.Inspect(fd.Body, func(n ast.Node) bool {
+					ce, ok := n.(*ast.CallExpr)
+					if !ok || out != nil {
+						return true
+					}
+					if se, ok := ce.Fun.(*ast.SelectorExpr); ok && se.Sel.Name == callee {
+						for _, a := range ce.Args {
+							out = append(out, leanStr(strings.ReplaceAll(c.src(a), " ", "")))
+						}
+					}
+					return true
+				})
+			}
+			return out
+		}
+		fields := func(fn, typ string) []string {
+			var out []string
+			if fd := c.findFunc(c05Keeper, "Keeper", fn); fd != nil && fd.Body != nil {
+				ast.Inspect(fd.Body, func(n ast.Node) bool {
+					cl, ok := n.(*ast.CompositeLit)
+					if !ok || out != nil || !strings.HasSuffix(c.src(cl.Type), typ) {
+						return true
+					}
+					for _, el := range cl.Elts {
+						if kv, ok := el.(*ast.KeyValueExpr); ok {
+							out = append(out, "("+leanStr(c.src(kv.Key))+", "+leanStr(strings.ReplaceAll(c.src(kv.Value), " ", ""))+")")
+						}
+					}
+					return true
+				})
+			}
+			return out
+		}
+		params := func(fn string) []string {
+			var out []string
+			if fd := c.findFunc(c05Keeper, "Keeper", fn); fd != nil {
+				for _, f := range fd.Type.Params.List {
+					for _, n := range f.Names {
+						out = append(out, leanStr(n.Name))
+					}
+				}
+			}
+			return out
+		}
+		passed := func(fn, callee string) []string {
+			var out []string
+			if fd := c.findFunc(c05Keeper, "Keeper", fn); fd != nil && fd.Body != nil {
+				ast.Inspect(fd.Body, func(n ast.Node) bool {
+					ce, ok := n.(*ast.CallExpr)
+					if !ok || out != nil {
+						return true
+					}
+					if se, ok := ce.Fun.(*ast.SelectorExpr); ok && se.Sel.Name == callee {
+						for _, a := range ce.Args {
+							out = append(out, leanStr(strings.ReplaceAll(c.src(a), " ", "")))
+						}
+					}
+					return true
+				})
+			}
+			return out
+		}
+		def("bridgeCallMsgArgs", "List String", leanList(args("BridgeCall", "AddOutgoingBridgeCall")), "arguments MsgServer.BridgeCall passes to AddOutgoingBridgeCall")
+		def("bridgeCallAddParams", "List String", leanList(params("AddOutgoingBridgeCall")), "parameter names of AddOutgoingBridgeCall")
+		def("bridgeCallBuildArgs", "List String", leanList(passed("AddOutgoingBridgeCall", "BuildOutgoingBridgeCall")), "arguments AddOutgoingBridgeCall passes to BuildOutgoingBridgeCall")
+		def("bridgeCallBuildParams", "List String", leanList(params("BuildOutgoingBridgeCall")), "parameter names of BuildOutgoingBridgeCall")
+		def("bridgeCallRecordFields", "List (String × String)", leanList(fields("BuildOutgoingBridgeCall", "OutgoingBridgeCall")), "(field, value) of the OutgoingBridgeCall literal BuildOutgoingBridgeCall stores")
+		def("sendMsgArgs", "List String", leanList(args("SendToExternal", "AddToOutgoingPool")), "arguments MsgServer.SendToExternal passes to AddToOutgoingPool")
+		def("sendAddParams", "List String", leanList(params("AddToOutgoingPool")), "parameter names of AddToOutgoingPool")
+		def("sendPoolArgs", "List String", leanList(passed("AddToOutgoingPool", "addToOutgoingPool")), "arguments AddToOutgoingPool passes to addToOutgoingPool")
+		def("sendPoolParams", "List String", leanList(params("addToOutgoingPool")), "parameter names of addToOutgoingPool")
+		def("sendRecordFields", "List (String × String)", leanList(fields("addToOutgoingPool", "OutgoingTransferTx")), "(field, value) of the OutgoingTransferTx literal addToOutgoingPool stores")
 	}
 	// ---- Solidity ----------------------------------------------------------------------------------------
 	{
